@@ -85,6 +85,11 @@ var FaultKinds = []string{
 // InjectFault puts exactly one fault of a drawn kind into a copy of the valid
 // document. ok is false when the document offers no site at all.
 func InjectFault(t *rapid.T, doc0 *Doc) (*Doc, Fault, bool) {
+	return InjectFaultOfKind(t, doc0, "")
+}
+
+// InjectFaultOfKind is InjectFault restricted to one kind ("" = any).
+func InjectFaultOfKind(t *rapid.T, doc0 *Doc, only string) (*Doc, Fault, bool) {
 	doc := doc0.Copy()
 	f := &faulter{t: t, doc: doc, next: doc.MaxID() + 1000}
 	var sites []faultSite
@@ -327,6 +332,28 @@ func InjectFault(t *rapid.T, doc0 *Doc) (*Doc, Fault, bool) {
 		doc.Top = append(doc.Top, a, b)
 		return []int{a.ID, b.ID}
 	})
+	// undefined macro pasted somewhere inside the tree (any directive that admits a PASTE)
+	doc.Walk(func(d, parent *Dir) {
+		if d.Kw == "MACRO" || d.Kw == "PASTE" || d.Kw == "INCLUDE" || !DocAdmits(d.Kw, "PASTE") {
+			return
+		}
+		for p := parent; p != nil; p = doc.parentOf(p) {
+			if p.Kw == "MACRO" {
+				return // inside a macro body the route matters; kept to the existing sites
+			}
+		}
+		add("undefined-macro", func() []int {
+			pd := &Dir{ID: f.id(), Kw: "PASTE", Params: []string{"@undefinedMacro"}}
+			pos := rapid.IntRange(0, len(d.Children)).Draw(t, "pastePos")
+			for pos < len(d.Children) && d.Children[pos].Hoisted {
+				pos++
+			}
+			kids := append([]*Dir{}, d.Children[:pos]...)
+			kids = append(kids, pd)
+			d.Children = append(kids, d.Children[pos:]...)
+			return []int{pd.ID}
+		})
+	})
 	// top-level undefined macro
 	add("undefined-macro", func() []int {
 		pd := &Dir{ID: f.id(), Kw: "PASTE", Params: []string{"@undefinedMacro"}}
@@ -381,10 +408,16 @@ func InjectFault(t *rapid.T, doc0 *Doc) (*Doc, Fault, bool) {
 	byKind := map[string][]faultSite{}
 	var kinds []string
 	for _, s := range sites {
+		if only != "" && s.kind != only {
+			continue
+		}
 		if _, ok := byKind[s.kind]; !ok {
 			kinds = append(kinds, s.kind)
 		}
 		byKind[s.kind] = append(byKind[s.kind], s)
+	}
+	if len(kinds) == 0 {
+		return doc, Fault{}, false
 	}
 	kind := kinds[rapid.IntRange(0, len(kinds)-1).Draw(t, "faultKind")]
 	ss := byKind[kind]
